@@ -236,7 +236,8 @@ def gen_case(seeds, params, index):
             zone_sets.append([gen_zone(f, d['f'])] * nsteps)
         else:
             zone_sets.append([gen_zone(f, d['f']) for _ in range(nsteps)])
-    return {'clause': clause, 'vals': vals, 'zones': zone_sets}
+    return {'clause': clause, 'vals': vals, 'zones': zone_sets,
+            'ctx': 'legacy' if w.random() < 0.2 else 'default'}
 
 
 # ---------------------------------------------------------------------------
@@ -273,14 +274,19 @@ PROGRAMS = {
 }
 
 
-def engine_ctx():
+def engine_ctx(flavour='default'):
     if 'engine' not in _state:
         import yaql
+        import yaql.legacy
         _state['engine'] = yaql.YaqlFactory().create(
             {'yaql.convertOutputData': False})
         _state['ctx'] = yaql.create_context()
+        # the legacy function set on top of the standard library, used with
+        # the modern engine (hosts migrating from 0.2 do exactly this)
+        _state['ctx_legacy'] = yaql.legacy.create_context()
         _state['stmts'] = {}
-    return _state['engine'], _state['ctx']
+    return _state['engine'], _state['ctx_legacy' if flavour == 'legacy'
+                                    else 'ctx']
 
 
 def set_zone(z):
@@ -306,7 +312,7 @@ def ser(v):
 
 
 def run_program(case, zones, stats):
-    engine, base = engine_ctx()
+    engine, base = engine_ctx(case.get('ctx', 'default'))
     ctx = base.create_child_context()
     vals = case['vals']
     for name, (kind, spec) in vals.items():
@@ -580,6 +586,7 @@ def execute(case, stats):
     finally:
         set_zone('UTC0')
     stats.inc('clause.' + case['clause'])
+    stats.inc('context.' + case.get('ctx', 'default'))
     stats.inc('status.' + (status or 'none'))
     if status == 'checked':
         vals = case['vals']
@@ -618,6 +625,8 @@ def shrink_candidates(case):
         for simple in ('UTC0', 'SIM-9:00', 'SIM+5:00'):
             if any(x != simple for x in z) and not (i == 0 and simple != 'UTC0'):
                 yield mk(zones=zs[:i] + [[simple] * len(z)] + zs[i + 1:])
+    if case.get('ctx') == 'legacy':
+        yield mk(ctx='default')
     vals = case['vals']
     for name in ('d', 'd2'):
         spec = vals[name][1]
@@ -679,6 +688,7 @@ def coverage(stats, params):
         'samples': stats.samples.get('sample', []) or [{'note': 'none'}],
         'expression_evaluations': stats.n('evaluations'),
         'clauses': stats.counters('clause.'),
+        'contexts': stats.counters('context.'),
         'status': stats.counters('status.'),
         'distinct_zone_strings': stats.distinct('zones_used'),
         'distinct_clause_zone_offset_combinations': stats.distinct('combos'),
